@@ -815,9 +815,10 @@ pub(crate) fn find_text_regex_select_expressions<'a, 'b>(
         foundexpressions
     } else {
         match expressions.len() {
+            0 => Vec::new(), //nothing to search for, nothing will be found
             1 => vec![0],
             2 => vec![0, 1],
-            _ => unreachable!("Expected 1 or 2 expressions"),
+            _ => unreachable!("Expected at most 2 expressions"),
         }
     })
 }
